@@ -106,8 +106,7 @@ auto gemm_n(Context&& ctxt, typename It2DA::element alpha, It2DA a_first, Size a
 	if(a_count == 0) { return c_first; }
 
 	if      (a_first. stride()==1 && (*b_first).stride()==1 && (*c_first).stride()==1){
-		if  (a_count==1)        {CTXT->gemm('N', 'C', (*c_first).size(), a_count, (*a_first).size(), &alpha, b_first.base(), b_first. stride(), underlying(a_first.base()), (*a_first).stride(), &beta, base(c_first), (*a_first).size()); }
-		else                    {CTXT->gemm('N', 'C', (*c_first).size(), a_count, (*a_first).size(), &alpha, b_first.base(), b_first. stride(), underlying(a_first.base()), (*a_first).stride(), &beta, base(c_first), c_first.stride() ); }
+		                        {CTXT->gemm('N', 'C', (*c_first).size(), a_count, (*a_first).size(), &alpha, b_first.base(), legal_ld(b_first.stride(), (*c_first).size()), underlying(a_first.base()), legal_ld((*a_first).stride(), a_count), &beta, base(c_first), legal_ld(c_first.stride(), (*c_first).size())); }
 	} else                      {throw std::logic_error{"not BLAS-implemented"};}
 
 	return c_first + a_count;
